@@ -203,7 +203,7 @@ def ev(e, env):
 # Structure probe: does an expression, as CasADi simplifies it, still depend on each shifted operand?
 # ----------------------------------------------------------------------------------
 
-def lost_offsets(exprs, signals_too=False, live_ops=None):
+def lost_offsets(exprs, signals_too=False, live_ops=None, not_decision=()):
     """exprs: list of trees that together form one relation (e.g. [lhs_i, rhs_i]).  Every leaf and every
     off(...) / placeholder node becomes a fresh MX symbol; returns the off-nodes the simplified difference
     no longer depends on (generator-made cancellations such as (x - x)*prev(y))."""
@@ -253,7 +253,10 @@ def lost_offsets(exprs, signals_too=False, live_ops=None):
     lost = [json.loads(k) for k in keys if json.loads(k)[0] == "off" and k in dead]
     if signals_too:
         # the whole relation must still depend on some declared symbol (it may not collapse to a constant)
-        live = [k for k in keys if json.loads(k)[0] in (live_ops or (("sym", "off") + tuple(PLACEHOLDERS))) and k not in dead]
+        def decision(node):      # an atom counts if it is, or contains, a symbol that is not a parameter
+            names = syms_in(node)
+            return bool(names - set(not_decision)) or not names
+        live = [k for k in keys if json.loads(k)[0] in (live_ops or (("sym", "off") + tuple(PLACEHOLDERS))) and k not in dead and decision(json.loads(k))]
         if not live:
             lost.append(["collapsed"])
     return lost
